@@ -561,7 +561,31 @@ func (u *Univ) BV(op Op, a, b *Term) *Term {
 		if b.IsConst() && b.Val == 0 {
 			return a
 		}
+		// (p - q) + q = p
+		if a.Op == OSub && a.Args[1] == b {
+			return a.Args[0]
+		}
+		if b.Op == OSub && b.Args[1] == a {
+			return b.Args[0]
+		}
+		// (p + k1) + k2 = p + (k1+k2)
+		if b.IsConst() && a.Op == OAdd && a.Args[1].IsConst() {
+			return u.BV(OAdd, a.Args[0], u.Const(w, a.Args[1].Val+b.Val))
+		}
+		if b.IsConst() && a.Op == OAdd && a.Args[0].IsConst() {
+			return u.BV(OAdd, a.Args[1], u.Const(w, a.Args[0].Val+b.Val))
+		}
 	case OSub:
+		// (p + q) - q = p
+		if a.Op == OAdd && a.Args[1] == b {
+			return a.Args[0]
+		}
+		if a.Op == OAdd && a.Args[0] == b {
+			return a.Args[1]
+		}
+		if b.IsConst() && b.Val != 0 {
+			return u.BV(OAdd, a, u.Const(w, -b.Val))
+		}
 		if b.IsConst() && b.Val == 0 {
 			return a
 		}
@@ -857,4 +881,24 @@ func b2u(b bool) uint64 {
 		return 1
 	}
 	return 0
+}
+
+
+// Show renders a term as an s-expression up to the given depth (debugging).
+func (t *Term) Show(d int) string {
+	if t.Op == OConst || t.Op == OVar || d == 0 {
+		return t.String()
+	}
+	n := opNames[t.Op]
+	if n == "" {
+		n = fmt.Sprintf("op%d", t.Op)
+	}
+	if t.Op == OApp {
+		n = t.Name
+	}
+	s := "(" + n
+	for _, a := range t.Args {
+		s += " " + a.Show(d-1)
+	}
+	return s + ")"
 }
